@@ -16,6 +16,9 @@ go build -o .build/bin/vxgen ./cmd/vxgen
 .build/bin/vxgen -repo /repo -out "$PWD/gen" >/dev/null
 go build -tags verif -o .build/bin/vharn.setup ./cmd/vharn
 go build -tags verif -o .build/bin/vpure.setup ./cmd/vpure
+# warm the cache for the race-enabled companion build of C07 (supplementary: failure is tolerated)
+go build -race -o .build/bin/vrace.setup ./cmd/vrace 2>/dev/null || true
+rm -f .build/bin/vrace.setup
 # engine self-test: known-answer programs through the same scheduler, shims and explorer as the checks
 VERIF_DIR="$PWD" .build/bin/vharn.setup selftest > .build/selftest.log 2>&1 || { cat .build/selftest.log; rm -f .build/bin/vharn.setup .build/bin/vpure.setup; exit 1; }
 rm -f .build/bin/vharn.setup .build/bin/vpure.setup
